@@ -209,7 +209,7 @@ func (h *harness) genSession(table string, g *simrt.Stream) []sessOp {
 	n := g.Range(3, 25)
 	key := 100
 	for i := 0; i < n; i++ {
-		switch g.Pick(3, 4, 3, 2, 2, 2, 2, 1, 1, 1) {
+		switch g.Pick(3, 4, 3, 2, 2, 2, 2, 1, 1, 1, 1, 2, 1) {
 		case 0:
 			ops = append(ops, sessOp{kind: "begin", n: g.Choose(2)})
 		case 1:
@@ -251,6 +251,14 @@ func (h *harness) genSession(table string, g *simrt.Stream) []sessOp {
 			} else {
 				ops = append(ops, sessOp{kind: "think", think: time.Duration(g.Choose(3000)) * time.Millisecond})
 			}
+		case 10:
+			// a cursor lives outside transactions and is read inside whichever one is open
+			qs := []string{table, table + " sort k", table + " where v is 'v1'", table + " project k,x", table + " remove w sort reverse k"}
+			ops = append(ops, sessOp{kind: "cursor", text: qs[g.Choose(len(qs))]})
+		case 11:
+			ops = append(ops, sessOp{kind: "cget", dir: []core.Dir{core.Next, core.Next, core.Prev}[g.Choose(3)], n: g.Range(1, 5)})
+		case 12:
+			ops = append(ops, sessOp{kind: []string{"rewind", "crewind", "cclose", "qclose", "readcount", "writecount", "libget"}[g.Choose(7)]})
 		}
 	}
 	ops = append(ops, sessOp{kind: "end", n: 0})
@@ -259,14 +267,19 @@ func (h *harness) genSession(table string, g *simrt.Stream) []sessOp {
 
 // side is one of the two executions of a session program.
 type side struct {
-	name  string
-	d     core.IDbms
-	th    *core.Thread
-	tran  core.ITran
-	q     core.IQuery
-	qtext string
-	last  core.Row // last row read
-	ltbl  string
+	name string
+	d    core.IDbms
+	th   *core.Thread
+	tran core.ITran
+	q    core.IQuery
+	cur  core.ICursor
+	// the columns the cursor had when it was opened, and the last cursor read rendered
+	// with those columns only
+	curCols []string
+	cgetAlt string
+	qtext   string
+	last    core.Row // last row read
+	ltbl    string
 }
 
 // rowStr renders a row logically: the value of every column of the header.
@@ -392,6 +405,82 @@ func (sd *side) do(o sessOp, table string, bigval string) (res string) {
 			res = "ok"
 		case "think":
 			res = "ok"
+		case "cursor":
+			if sd.cur != nil {
+				sd.cur.Close()
+			}
+			sd.cur = sd.d.Cursor(o.text, nil)
+			hdr := sd.cur.Header()
+			sd.curCols = append([]string(nil), hdr.Columns...)
+			res = fmt.Sprintf("cols=%v keys=%v order=%v", hdr.Columns, sd.cur.Keys(), sd.cur.Order())
+		case "cget":
+			if sd.cur == nil || sd.tran == nil {
+				res = "skip"
+				return
+			}
+			var out, alt []string
+			sd.cgetAlt = ""
+			for i := 0; i < o.n; i++ {
+				row, tbl := sd.cur.Get(sd.th, sd.tran, o.dir)
+				if row == nil {
+					out = append(out, "<none>")
+					alt = append(alt, "<none>")
+					break
+				}
+				hdr := sd.cur.Header()
+				out = append(out, rowStr(row, hdr)+"@"+tbl)
+				var parts []string
+				for _, c := range sd.curCols {
+					parts = append(parts, c+"="+short(row.GetRaw(hdr, c)))
+				}
+				alt = append(alt, strings.Join(parts, ",")+"@"+tbl)
+			}
+			res = strings.Join(out, " ; ")
+			sd.cgetAlt = strings.Join(alt, " ; ")
+		case "rewind":
+			if sd.q == nil {
+				res = "skip"
+				return
+			}
+			sd.q.Rewind()
+			res = "ok"
+		case "crewind":
+			if sd.cur == nil {
+				res = "skip"
+				return
+			}
+			sd.cur.Rewind()
+			res = "ok"
+		case "cclose":
+			if sd.cur == nil {
+				res = "skip"
+				return
+			}
+			sd.cur.Close()
+			sd.cur = nil
+			res = "ok"
+		case "qclose":
+			if sd.q == nil {
+				res = "skip"
+				return
+			}
+			sd.q.Close()
+			sd.q = nil
+			res = "ok"
+		case "readcount":
+			if sd.tran == nil {
+				res = "skip"
+				return
+			}
+			res = fmt.Sprint(sd.tran.ReadCount())
+		case "writecount":
+			if sd.tran == nil {
+				res = "skip"
+				return
+			}
+			res = fmt.Sprint(sd.tran.WriteCount())
+		case "libget":
+			res = fmt.Sprint(sd.d.LibGet("Foo"), sd.d.Libraries())
 		}
 	})
 	if err != "" {
@@ -500,6 +589,13 @@ func (h *harness) runC40() {
 				h.ri.Count("c40.ops", 1)
 				if strings.HasPrefix(r, "error") {
 					h.ri.Count("c40.ops-with-error-result", 1)
+				}
+				if r != l && o.kind == "cget" && r == local.cgetAlt {
+					// known finding (known_findings.json): the client keeps the header a cursor
+					// had when it was opened, a local cursor takes the header of the transaction
+					// it is read in; they differ after a schema change of the table
+					h.fail("C40/result-differs", "C40/result-differs/cursor-header-after-schema-change", "session %d operation %d (cursor read after the table's columns changed): through the server the rows have the columns the cursor was opened with: %s ; locally they have the current columns: %s", i, n, short(r), short(l))
+					return
 				}
 				if r != l && !bothDoomed(r, l) {
 					h.fail("C40/result-differs", "C40/result-differs/"+o.kind, "session %d operation %d (%s %s): through the server: %s ; locally: %s", i, n, o.kind, short(o.text), short(r), short(l))
